@@ -224,6 +224,22 @@ def oracle_c17(chk, rec):
                     chk.fail("a recorded phenotype is not the genotype-to-phenotype image of the genotype recorded in the same slot",
                              {**d, "generation": k, "slot": row}, feats(rec, "consistent_ph"))
                     return
+        # "the matching individual": every recorded (phenotype, fitness) pair is a rating the objective actually gave (deterministic objectives)
+        if not rec.inconsistent:
+            sign = -1.0 if rec.cfg.get("minimization") else 1.0
+            for row in range(len(st["population_ph"][k])):
+                pid = rec.pids.m.get(T.key_of(st["population_ph"][k][row]))
+                val = rec.obj_table.get(pid) if pid is not None else None
+                chk.count("rated_rows" if val is not None else "rows_not_found_among_the_rated_phenotypes")
+                got = float(st["fitness"][k][row])
+                if val is None:
+                    chk.fail("a recorded individual was never rated by the objective: its recorded fitness belongs to another individual",
+                             {**d, "generation": k, "slot": row, "recorded_fitness": got}, feats(rec, "rated"))
+                    return
+                if val is not None and not (np.isnan(val) or np.isnan(got)) and sign * val != got:
+                    chk.fail("a recorded fitness is not the objective's rating of the phenotype recorded in the same slot",
+                             {**d, "generation": k, "slot": row, "recorded_fitness": got, "rating": sign * val}, feats(rec, "rated"))
+                    return
         fit = np.asarray(st["fitness"][k])
         i = int(np.argmax(fit))
         if float(st["max_fitness"][k]) != float(fit.max()) or T.key_of(st["max_g"][k]) != T.key_of(st["population_g"][k][i]) or \
